@@ -229,15 +229,11 @@ def colIdOf (a : String) : Option Nat :=
 
 def column (rows : List Row) (i : Nat) : List Val := rows.map (fun r => r.getD i .null)
 
-/-- reason tags for an equi-join whose L2 result differs from the spec.  (NULL keys no longer are a
-mechanism: since the `fix:` commit the executors never match them, like the spec.) -/
-def joinTags (name : String) (lk rk : List (Row → Val)) (L R : List Row) (sorted : Bool) : List String :=
-  let lks := (L.map (keyOf lk)).filter (fun k => !hasNullKey k)
-  let rks := (R.map (keyOf rk)).filter (fun k => !hasNullKey k)
-  let mixed := lks.any (fun a => rks.any (fun b => (a.zip b).any (fun (x, y) => x.rank != y.rank)))
-  (if mixed then [name ++ ":int32-int64-key"] else []) ++
-  (if !sorted then [name ++ ":unsorted-input"] else []) ++
-  (if !mixed && sorted then [name ++ ":other"] else [])
+/-- reason tags for an equi-join whose L2 result differs from the spec.  (NULL keys and keys of
+different integer widths no longer are mechanisms: since the two `fix:` commits the executors never
+match the former and compare the latter by value, like the spec.) -/
+def joinTags (name : String) (sorted : Bool) : List String :=
+  if !sorted then [name ++ ":unsorted-input"] else [name ++ ":other"]
 
 def aggTag (path : String) (k : AggKind) (nonNullSeen rawDiffers : Bool) : String :=
   match k with
@@ -421,13 +417,13 @@ def runPlan (tables : List Table) (spec : Bool) : Nat → Sexp → Except String
           else if (hasResid && !semiLike) then .ok { base with chunks := [], unsupported := some "hash/merge join with residual condition: assertion" }
           else
           let out :=
-            if merge then mergeJoin t lk rk nL nR lo.chunks ro.chunks
+            if merge then mergeJoinW t lk rk nL nR lo.chunks ro.chunks
             else if semiLike then
-              (if hasResid then hashSemiJoin2 (t == .anti) lk rk resid lo.chunks ro.chunks
-               else hashSemiJoin (t == .anti) lk rk lo.chunks ro.chunks)
-            else hashJoin t lk rk nL nR lo.chunks ro.chunks
-          let sorted := !merge || (isSortedBy lk L && isSortedBy rk R)
-          let tg := if sameBag (flat out) specRows then [] else joinTags h lk rk L R sorted
+              (if hasResid then hashSemiJoin2W (t == .anti) lk rk resid lo.chunks ro.chunks
+               else hashSemiJoinW (t == .anti) lk rk lo.chunks ro.chunks)
+            else hashJoinW t lk rk nL nR lo.chunks ro.chunks
+          let sorted := !merge || (isSortedBy (wk lk) L && isSortedBy (wk rk) R)
+          let tg := if sameBag (flat out) specRows then [] else joinTags h sorted
           .ok { base with chunks := out, tags := base.tags ++ tg }
       | .error e, _, _ => .error e
       | _, .error e, _ => .error e
